@@ -10,6 +10,7 @@ import CprocVerif.Lemmas.PPSubst
 import CprocVerif.Lemmas.PPObjFuel
 import CprocVerif.Lemmas.PPFunStep
 import CprocVerif.Lemmas.PPFunSim6
+import CprocVerif.Lemmas.PPPre8
 
 /-!
 # C12 — macro definition and expansion follow C11 6.10.3 on the implemented subset
@@ -577,6 +578,68 @@ example : runKeys (run 60 { raw := rawHAB, macros := tblHAB }).1 =
     [ident b!"A", num b!"7", ident b!"x", tk .TLPAREN, num b!"2", tk .TCOMMA, ident b!"y", tk .TRPAREN, tk .TADD,
      num b!"1", num b!"1", ident b!"x", ident b!"B", ident b!"x", num b!"7", ident b!"z", tk .TADD, ident b!"z",
      ident b!"z"].map (fun t => (t.kind, t.lit)) := by decide +kernel
+
+/-! ## 7e. Arguments that name object-like macros: complete replacement before substitution (6.10.3.1)
+
+The class of texts grows (`TextP`): the tokens between the parentheses of an invocation may name
+object-like macros of the table (not function-like ones; no new-line, no `#`).  `expandfunc` reads
+the arguments through `expand`: the replacement of a macro named in an argument is pushed on the
+context stack and delivered into the argument while the nesting depth tells it apart from the
+text of the invocation; the reference isolates each argument and replaces it completely on its
+own.  The abstraction carries paint marks (`mkHp`: a hidden token that names a macro), because a
+macro name painted inside an argument must stay painted when the replacement list is rescanned. -/
+
+/-- **Complete macro replacement of the arguments, then substitution, then rescanning: the token
+stream of the model is the token stream of the reference** on tables of object-like and simple
+function-like macros and texts whose invocations have arguments naming object-like macros.  If
+the model's run completes, the reference — with `J` units of fuel or more — completes without
+diagnostic and delivers the same tokens by class and spelling (after `keyword()`). -/
+theorem function_like_args_correct_partial (ms0 : List Macro) (hTb : TblOK ms0) (n : Nat) (st : St) (g : GoodP ms0 st)
+    (ht : TextP ms0 st.raw) (hrun : (run n st).2 = none) :
+    ∃ J, ∀ K, J ≤ K →
+      (MacroRef.expandH false K (tblF ms0) (absP ms0 st)).2.1 = none ∧
+      (MacroRef.expandH false K (tblF ms0) (absP ms0 st)).1.map (fun t => kwKey t.tok.key) = runKeys (run n st).1 := by
+  obtain ⟨L, hL, hlink⟩ := run_simP ms0 hTb n st g ht hrun
+  obtain ⟨J, hJ⟩ := hlink.final
+  refine ⟨J, fun K hK => ?_⟩
+  have := hJ K hK
+  simp only [outKeys, Prod.mk.injEq] at this
+  refine ⟨this.2, ?_⟩
+  rw [← hL, ← this.1, List.map_map]
+  rfl
+
+/-- the same from the start of a text, with the class given by its executable tests (`tblOKb`,
+`textPb`), and the source of the reference written without paint marks (`absRawF`) -/
+theorem function_like_args_correct_init (ms0 : List Macro) (raw : List Tok) (n : Nat) (h1 : tblOKb ms0 = true)
+    (h2 : ∀ m ∈ ms0, m.hide = false) (h3 : textPb ms0 (raw.length + 1) raw = true)
+    (hrun : (run n { raw := raw, macros := ms0 }).2 = none) :
+    ∃ J, ∀ K, J ≤ K →
+      (MacroRef.expandH false K (tblF ms0) ((absRawF raw).map .tok)).2.1 = none ∧
+      (MacroRef.expandH false K (tblF ms0) ((absRawF raw).map .tok)).1.map (fun t => kwKey t.tok.key)
+        = runKeys (run n { raw := raw, macros := ms0 }).1 := by
+  have ht := textP_of_b ms0 _ raw h3
+  have := function_like_args_correct_partial ms0 (tblOK_of_b h1) n { raw := raw, macros := ms0 }
+    (goodP_init ms0 raw (tblOK_of_b h1) h2) ht hrun
+  have e : absP ms0 { raw := raw, macros := ms0 } = (absRawF raw).map .tok := by
+    show absX ms0 _ _ = _
+    rw [absX_nil_ctx ms0 _ _ rfl]
+    show (absRawP ms0 raw).map _ = _
+    rw [absRawP_eq ht]
+  rw [e] at this
+  exact this
+
+-- non-vacuity: the table above, and the text `H ( A , ( B , y ) ) x`: the first argument is replaced
+-- by `A 7 x` (inner `A` painted), the second by `( B x 7 , y )` (inner `B` painted)
+def rawArgs : List Tok := [ident b!"H", tk .TLPAREN none true, ident b!"A" true, tk .TCOMMA none true, tk .TLPAREN none true,
+  ident b!"B" true, tk .TCOMMA none true, ident b!"y" true, tk .TRPAREN none true, tk .TRPAREN none true, ident b!"x" true,
+  NL, tk .TEOF]
+example : textPb tblHAB (rawArgs.length + 1) rawArgs = true := by decide +kernel
+example : textOKb tblHAB (rawArgs.length + 1) rawArgs = false := by decide +kernel
+example : (run 80 { raw := rawArgs, macros := tblHAB }).2 = none := by decide +kernel
+example : runKeys (run 80 { raw := rawArgs, macros := tblHAB }).1 =
+    [tk .TLPAREN, ident b!"B", ident b!"x", num b!"7", tk .TCOMMA, ident b!"y", tk .TRPAREN, tk .TADD,
+     ident b!"A", num b!"7", ident b!"x", ident b!"A", num b!"7", ident b!"x", ident b!"x"].map (fun t => (t.kind, t.lit)) := by
+  decide +kernel
 
 /-! ## 8. Function-like macros: the full statement, and why it is false today
 
